@@ -43,6 +43,36 @@ theorem parseFull_total (k : InfoKind) (payload : List UInt8) (site : String) :
   | panic s => exact absurd h (this s)
   | ok r => cases r <;> simp
 
+/-- The fuel `parse_server_info`'s client loop is run with in the model (`payload.length + 1`) always
+suffices: with any larger fuel the result is the same, i.e. the loop ends because the input is used
+up (every iteration consumes at least the NUL of the client name), never because of the bound. -/
+theorem client_loop_fuel_suffices (k : InfoKind) (ver : Version) (extra j : Nat) (bs : List UInt8)
+    (acc : List ClientInfo) (recv : Nat) :
+    parseClients k.reader ver (bs.length + 1 + extra) j bs acc recv
+      = parseClients k.reader ver (bs.length + 1) j bs acc recv :=
+  parseClients_fuel k.reader_consuming ver _ _ j bs acc recv (by omega) (by omega)
+
+/-- What the count sanity check guarantees for every info any `Info*Response::parse` hands out:
+`0 ≤ players ≤ clients ≤ max_clients`, `0 ≤ max_players ≤ max_clients`, `max_clients` within the
+maximum of the version (16 / 16 / 16 / 64 / — / 64). -/
+theorem parsed_counts_sane (k : InfoKind) (payload : List UInt8) (p : PartialInfo)
+    (h : parsePartial k payload = .ok (some p)) :
+    CountsSane p.info ∧ p.info.infoVersion = k.received.version :=
+  parseServerInfo_sane h
+
+/-- The `received` masks the parser builds (the mechanism the merge relies on): bit 0 for the main
+packet of an extended info, bit `n` (1 ≤ n ≤ 63) for an `iex+` packet with packet number `n`, the
+bits of the kept clients' slots — none beyond slot 63 — for a legacy 64-player packet, nothing for
+the single-packet kinds. These are exactly the masks `Family.part` gives the parts. -/
+theorem parsed_mask_shape (k : InfoKind) (payload : List UInt8) (p : PartialInfo)
+    (h : parsePartial k payload = .ok (some p)) :
+    match k with
+    | .info6Ex => p.received = 1
+    | .info6ExMore => ∃ n, PACKET_NO_MIN ≤ n ∧ n < PACKET_NO_REJECT_FROM ∧ p.received = 1 <<< n
+    | .info664 => ∃ off n, p.received = rangeMask off n ∧ p.info.clients.length = n ∧ (n = 0 ∨ off + n ≤ RECEIVED_BITS)
+    | _ => p.received = 0 :=
+  parsePartial_mask (by decide) k payload p h
+
 /-! ## Ties to the source for literals the model writes itself -/
 
 /-- `parse_response`: first bytes `0x04` / `0x21`, header lengths 8 / 17, the masked ranges
@@ -119,6 +149,41 @@ theorem complete_lists_each_once (f : Family) :
     f.completeInfo.clients.Perm ((List.range f.size).flatMap f.chunk) ∧
     f.completeInfo.clients.Pairwise (fun a b => a.le b = true) :=
   ⟨sortClients_perm _, sortClients_sorted _⟩
+
+/-- A merge that is refused changes nothing. -/
+theorem merge_error_leaves_accumulator (s o : PartialInfo) (e : MergeError) (h : (merge s o).2 = some e) :
+    (merge s o).1 = s := by
+  unfold merge at h ⊢
+  repeat' split
+  all_goals first | rfl | simp_all
+
+/-- Idempotence as far as the code has it: a part whose mask is contained in the accumulator's
+mask is recognised ("we already have that server info") and leaves the accumulator untouched. -/
+theorem merge_known_part_is_noop (s o : PartialInfo) (htok : s.info.token = o.info.token)
+    (hver : s.info.infoVersion = o.info.infoVersion)
+    (hmulti : s.info.infoVersion = .v664 ∨ s.info.infoVersion = .v6Ex)
+    (hold : s.received &&& o.received = o.received) : merge s o = (s, none) :=
+  merge_known htok hver hmulti hold
+
+/-- `take_info` hands out exactly what `get_info` reports and then resets the accumulator (mask all
+ones, default info); when `get_info` reports nothing it changes nothing but the order of nothing. -/
+theorem takeInfo_spec (s : PartialInfo) :
+    (takeInfo s).2 = (getInfo s).2 ∧
+    ((getInfo s).2.isSome → (takeInfo s).1 = { info := {}, received := 2 ^ RECEIVED_BITS - 1 }) ∧
+    ((getInfo s).2 = none → (takeInfo s).1 = s) := by
+  unfold takeInfo
+  cases h : getInfo s with
+  | mk s' r =>
+    cases r with
+    | none =>
+      refine ⟨rfl, by simp, fun _ => ?_⟩
+      unfold getInfo at h
+      split at h
+      · simp only [Prod.mk.injEq] at h; exact h.1.symm
+      · split at h
+        · simp only [Prod.mk.injEq] at h; exact h.1.symm
+        · simp at h
+    | some i => exact ⟨rfl, fun _ => rfl, by simp⟩
 
 /-- D10 in the model: the main packet of an extended info announcing two clients, then its `iex+`
 packet twice — every part has been received, but the result is not the complete info (the second
